@@ -1,0 +1,63 @@
+//go:build verif
+
+// Add-only observation hook for the /verif property C17 (round 7): which sample indices the
+// SAGA workers evaluate in every epoch.  Nothing here is called by the library itself.
+
+package vectorEstimator
+
+/* -------------------------------------------------------------------------- */
+
+import   "fmt"
+import   "sync"
+
+import . "github.com/pbenner/autodiff"
+import   "github.com/pbenner/autodiff/algorithm/saga"
+import . "github.com/pbenner/threadpool"
+
+/* -------------------------------------------------------------------------- */
+
+// Same calls as the sparse L1 branch of LogisticRegression.Estimate (Initialize for the pool p,
+// one Execute), with the objective wrapped so that every gradient evaluation f(j, x1) of a worker
+// (Iterate; the jit look-ups f(j, nil) are not evaluations) is logged.  Returns the log cut into
+// epochs (the epoch hook cuts; a trailing epoch ended by the stopping rule is cut on return).
+// sequential: the workers created for p are iterated on the nil pool, in order.
+func VerifC17SagaTrace(obj *LogisticRegression, p ThreadPool, sequential bool) ([][]int, error) {
+  if !obj.sparse || obj.L2Reg != 0.0 || obj.TiReg != 0.0 {
+    return nil, fmt.Errorf("VerifC17SagaTrace: only the specialised sparse L1 implementation")
+  }
+  var mu sync.Mutex
+  cur    := []int{}
+  epochs := [][]int{}
+  f := func(i int, theta DenseFloat64Vector) (float64, float64, SparseConstFloat64Vector, error) {
+    if theta != nil {
+      mu.Lock()
+      cur = append(cur, i)
+      mu.Unlock()
+    }
+    return obj.f_sparse(i, theta)
+  }
+  cut := func(ConstVector, ConstScalar, ConstScalar, int) bool {
+    mu.Lock()
+    epochs = append(epochs, cur)
+    cur    = []int{}
+    mu.Unlock()
+    return false
+  }
+  if err := obj.sagaLogisticRegressionL1.Initialize(saga.Objective1Sparse(f), len(obj.x_sparse), obj.Theta,
+    saga.L1Regularization{obj.L1Reg},
+    saga.Gamma           {obj.stepSize},
+    saga.Seed            {obj.Seed}, p); err != nil {
+    return nil, err
+  }
+  if sequential {
+    obj.sagaLogisticRegressionL1.Pool = Nil()
+  }
+  _, _, err := obj.sagaLogisticRegressionL1.Execute(
+    saga.Epsilon         {obj.Epsilon},
+    saga.MaxIterations   {obj.MaxIterations},
+    saga.Hook            {cut})
+  if len(cur) > 0 {
+    epochs = append(epochs, cur)
+  }
+  return epochs, err
+}
